@@ -4,6 +4,7 @@ package props
 
 import (
 	"fmt"
+	"github.com/flowmatters/openwater-core/sim"
 	"math"
 
 	"github.com/flowmatters/openwater-core/data"
@@ -102,13 +103,33 @@ func c04Main(c *core.Ctx) {
 		}
 	}
 	c.Class(fmt.Sprintf("%s/%d-%d-%d/T%d/pad%d/hot%v", model, N, P, B, T, pad, hot))
-	checkVectorisedEqualsSingle(c, run, "")
+	// the N-cell run on a model OBJECT that has already been parameterised and run with other values (same number of
+	// sets): ApplyParameters must replace everything the previous parameterisation left in the object
+	var used sim.TimeSteppingModel
+	if c.R.Bool(0.3) {
+		used = NewModel(model)
+		alt := GenRun(model, c.R, N, P, B, c.R.IntRange(1, 4), wc)
+		if pa, err := PrepareOn(used, alt); err == nil {
+			pa.Exec()
+			c.Tag("object-used-with-other-parameters-before")
+		} else {
+			used = nil
+		}
+	}
+	checkVectorisedEqualsSingleOn(c, run, "", used)
 }
 
 // checkVectorisedEqualsSingle runs the N-cell case and every cell alone; reports differences.
 func checkVectorisedEqualsSingle(c *core.Ctx, run *MRun, kindPrefix string) {
+	checkVectorisedEqualsSingleOn(c, run, kindPrefix, nil)
+}
+
+func checkVectorisedEqualsSingleOn(c *core.Ctx, run *MRun, kindPrefix string, on sim.TimeSteppingModel) {
 	model := run.Model
-	p, err := Prepare(run)
+	if on == nil {
+		on = NewModel(model)
+	}
+	p, err := PrepareOn(on, run)
 	if err != nil {
 		c.Violate(kindPrefix+"prepare", model, err.Error())
 		return
